@@ -203,7 +203,7 @@ def r2_outer(ctx):
         oks = oks and ok1
     ctx.ob(rule, OUTER, 'result = len(candidates) + sum over par_iter(candidates).map(task)', oks, found=found,
            expected='initial_count + candidates.par_iter().map(..).sum()', why='the parallel routine must count what the sequential one counts')
-    clo = next(iter(par_clo)) if len(par_clo) == 1 else OUTER + '::{closure#0}'          # the task handed to par_iter().map()
+    clo = next(iter(par_clo)) if len(par_clo) == 1 else par_task(facts, OUTER)          # the task handed to par_iter().map()
     eng = Engine(facts, opaque={INNER, CHESSMOVE + '::apply', CHESSMOVE + '::undo', MG + '::new'})
     couts = eng.run(clo)
     ctx.touch(clo)
